@@ -6,7 +6,7 @@
 //	(1) strace: no connect() of the worker to a loopback / private / link-local /
 //	    unspecified sockaddr, except to the worker's own fake DNS server and HTTP
 //	    proxy (by exact ip:port), the case markers, and the resolver's RFC 6724
-//	    source-address probes (SOCK_DGRAM connect to port 9, which send nothing).
+//	    source-address probes (SOCK_DGRAM connect to port 53, which send nothing).
 //	(2) proxy log: every target the proxy was asked to reach must be a public
 //	    literal or a name whose last answers received by the worker's resolver
 //	    before that request held no internal address.
@@ -448,6 +448,7 @@ func run(b kit.Batch, r *kit.R) {
 		byCase[c.caseI] = append(byCase[c.caseI], c)
 	}
 	proxied := p.Mode == "proxy" || p.Mode == "proxyname"
+	hasProxyEnv := proxied || p.Mode == "httpsproxy" || p.Mode == "noproxy"
 
 	r.ForEach(len(cases), func(c *kit.Case) {
 		tc := cases[c.Index]
@@ -465,8 +466,10 @@ func run(b kit.Batch, r *kit.R) {
 			switch {
 			case ap == dnsAP:
 				r.Count("strace_connects_to_fake_dns", 1)
-			case !sc.stream && sc.port == 9:
-				r.Count("strace_udp_port9_source_address_probes", 1)
+			case !sc.stream && sc.port == 53:
+				// net/addrselect.go srcAddrs: the resolver connect()s a UDP socket to every
+				// candidate address (port 53) to learn the source address; no packet is sent
+				r.Count("strace_udp_rfc6724_source_address_probes", 1)
 			case ap == proxyAP && sc.stream && p.Mode != "direct" && p.Mode != "allow":
 				r.Count("strace_connects_to_proxy", 1)
 			case !isInternal(sc.addr):
@@ -481,7 +484,8 @@ func run(b kit.Batch, r *kit.R) {
 				}
 			default:
 				key := "c38/connect-to-internal-address"
-				if tc.Note == "proxy-host-other-port" {
+				if hasProxyEnv && sc.stream && sc.addr.Unmap() == proxyAP.Addr() {
+					// same host as the configured proxy, but not the proxy's port
 					key = "c38/connect-to-proxy-host-on-another-port"
 				}
 				c.Fail(key, map[string]any{"msg": fmt.Sprintf("the server process called connect() to %s (stream=%v) during this case", ap, sc.stream),
